@@ -3,6 +3,7 @@ import DarkluaModel.Rules.EvalC08Total
 import DarkluaModel.Rules.WholeRule
 import DarkluaModel.Rules.UnusedIfBranchWhole
 import DarkluaModel.Rules.ConvertIndexWhole
+import DarkluaModel.Rules.ComputeExpressionWhole
 /-!
 # Whole-rule theorems at ONE number system (for the real evaluator)
 
@@ -394,5 +395,63 @@ theorem apply_upto_at (ht : EvalTotal N api) (b : Block) (ρ : ExtOracle N) (n :
   runDefault_upto_at (hooksLeAt ht) hooksNoRef b () ρ n externs
 
 end UnusedIfBranch
+
+/-! ### compute_expression -/
+namespace ComputeExpression
+open Whole DarkluaModel.Evaluator
+
+theorem gApi_toExpr {E : EvalOps N} {e v : Expr} (h : (gApi N E).toExpr e = some v) :
+    guard E e = true ∧ isNum (evaluate E e) = false ∧ toExprOf (evaluate E e) = some v := by
+  simp only [gApi] at h
+  by_cases hg : guard E e = true
+  · cases hn : isNum (evaluate E e)
+    · simp only [hg, hn, Bool.not_false, Bool.and_self, if_true, c08Api] at h; exact ⟨hg, rfl, h⟩
+    · simp [hg, hn] at h
+  · simp [hg] at h
+
+/-- `to_expression` of a definite non-number value of a total expression denotes what the expression denotes -/
+theorem gApi_fold {E : EvalOps N} (A : C08.Agree N E) : FoldTotal N (gApi N E) := by
+  intro e v hte _ call ρ k env σ
+  obtain ⟨hg, hn, hv⟩ := gApi_toExpr hte
+  simp only [guard, Bool.and_eq_true] at hg
+  obtain ⟨w0, hw0⟩ := tot_total A call ρ k env e hg.1 hg.2 σ
+  right
+  rw [hw0]
+  cases hev : evaluate E e <;> rw [hev] at hv hn <;> simp only [toExprOf, isNum] at hv hn <;>
+    first
+    | exact Bool.noConfusion hn
+    | (cases hv
+       have := val_of_ok A call ρ k env hg.1 (by rw [hev]; rfl) hw0
+       subst this
+       simp [evalE])
+    | cases hv
+
+theorem gApi_coherent {E : EvalOps N} : AndOrCoherent (gApi N E) := by
+  intro op l r hop h
+  simp only [gApi, Bool.or_eq_false_iff, Bool.not_eq_false'] at h ⊢
+  obtain ⟨hg, hse⟩ := h
+  simp only [guard, Bool.and_eq_true] at hg ⊢
+  have hgl : C08.h8 E l = true ∧ tot E l = true := by
+    rcases hop with rfl | rfl <;> simp only [C08.h8, tot, Bool.and_eq_true] at hg <;> exact ⟨hg.1.1.1, hg.2.1⟩
+  refine ⟨hgl, ?_⟩
+  simp only [c08Api] at hse ⊢
+  rcases hop with rfl | rfl <;> simp only [Evaluator.hasSideEffects] at hse
+  · split at hse
+    · simp only [Bool.or_eq_false_iff] at hse; exact hse.1
+    · exact hse
+  · split at hse
+    · exact hse
+    · simp only [Bool.or_eq_false_iff] at hse; exact hse.1
+
+theorem gApi_closed {E : EvalOps N} : FoldClosed (gApi N E) := by
+  intro e v hte x
+  obtain ⟨_, hn, hv⟩ := gApi_toExpr hte
+  cases hev : evaluate E e <;> rw [hev] at hv hn <;> simp only [toExprOf, isNum] at hv hn <;>
+    first
+    | exact Bool.noConfusion hn
+    | (cases hv; rfl)
+    | cases hv
+
+end ComputeExpression
 
 end DarkluaModel.Rules
